@@ -158,11 +158,11 @@ Variable plen : Z.
 Variable clen : key -> Z.
 
 Lemma final_rows hist :
-  existsb (f2_row tf) (all_rows hist) = false -> existsb (f3_misfire tf) hist = false ->
+  existsb (f2_row tf) (all_rows hist) = false ->
   Permutation (var_rows_all (final_bucket encf decf tf plen clen hist))
                           (map (quantise encf decf tf) (all_rows hist)).
 Proof.
-  intros F2 F3. destruct (VarStore_facts.run_store encf tf hist F2 F3) as [S P].
+  intros F2. destruct (VarStore_facts.run_store encf tf hist F2) as [S P].
   unfold final_bucket, bucket_of, var_rows_all, final. cbn [b_files].
   rewrite (VarStore_facts.group_years_rows decf tf clen _ (VarStore_facts.store_ok_nonzero encf decf tf _ S)).
   rewrite (Permutation_map (VarStore_facts.dec_entry decf tf) P).
@@ -176,8 +176,8 @@ Theorem C09_guarded_main hist : guard_C09 encf decf tf plen clen hist = true ->
   /\ sorted_tns R = true
   /\ Forall (fun r => bound_ok encf decf tf r = true) (all_rows hist).
 Proof.
-  unfold guard_C09. rewrite !andb_true_iff. intros ((((((Rok & F2) & F3) & Bd) & W) & Y) & C).
-  apply negb_true_iff in F2, F3. cbv zeta.
+  unfold guard_C09. rewrite !andb_true_iff. intros (((((Rok & F2) & Bd) & W) & Y) & C).
+  apply negb_true_iff in F2. cbv zeta.
   assert (V : b_var (final_bucket encf decf tf plen clen hist) = true) by reflexivity.
   assert (Fy : Forall (fun f => 1970 <= y_year f) (b_files (final_bucket encf decf tf plen clen hist))).
   { apply forallb_Forall in Y. eapply Forall_impl; [|exact Y]. cbv beta. intros f Hf. now apply Z.leb_le. }
